@@ -247,3 +247,28 @@ CHECKS["C01"]["rule"] = (
     "start, all states in bounds (raw coordinates), dense validity (invalid runs <= 2r at r/20 sampling), strict re-check of every consecutive pair "
     "with the harness's own k/n loop for tree/roadmap planners. Non-trivial = a solution whose straight start-goal motion is invalid, or an "
     "abnormal scenario; distinct = consumed byte prefix.")
+
+CHECKS["C03"] = dict(
+    src="harness/C03_history.cpp",
+    cases=dict(quick=3000, thorough=40000),
+    rule="(filled below)",
+    technique="property-based testing of call histories with an evaluation-indexed termination condition; fork per case with LeakSanitizer at exit",
+    level_text="For every registry planner, generated histories of solve / clear / clearQuery / new problem definition / getPlannerData are run with "
+               "the termination condition first firing at a generated evaluation index k (0,1,2,... and log-uniform up to 2500); after every step the "
+               "status, the stored solutions (C01 path oracle), resume monotonicity and absence of stale query states are judged; ASan watches for "
+               "use-after-free / double free and LeakSanitizer reports every leaked state when the child exits. Exploration-level.",
+    level_note="Trusted: as C01. A bare setProblemDefinition without clear()/clearQuery() is documented as unsupported (Planner.h) and is not "
+               "generated. The bound on evaluations after the condition fired (500; 5000 for threaded planners) was calibrated x10 on the unchanged "
+               "tree; a child that stops evaluating for 30 s is a hang, one that is still evaluating after 150 s is inconclusive.",
+    assumptions=["switching to a new problem definition is always followed by clear() or clearQuery() (documented protocol)",
+                 "after clearQuery() a roadmap planner may keep states of the old query as ordinary vertices, never as path endpoints",
+                 "resumed-solve status may be APPROXIMATE/TIMEOUT while the pdef still ranks an older exact solution first"],
+)
+CHECKS["C03"]["rule"] = (
+    "Case = planner (47 registry entries) x space {R^2, R^3, SE2} x 0..3 obstacles x two queries in opposite corners (>= 10 r apart) x GoalState / "
+    "GoalStates x threshold x seed x history of 1..7 steps from {solve(k) with k in 0..3 / 0..40 / log-uniform 1..2500 (scaled per planner), clear(), "
+    "clearQuery(), setProblemDefinition(other query) followed by clear() or clearQuery(), getPlannerData(), pdef->clearSolutionPaths()}. Oracle after "
+    "every solve: returned within the per-planner bound of further evaluations, status <-> pdef coherence (full on a first solve, weaker on a resume), "
+    "truthful INVALID_* statuses, no empty / 1-state / half-built solution, C01 path oracle, no start/goal state of the other query in the path (or in "
+    "the planner data right after clear()), resumed solves never lose an exact solution nor worsen the best one; ASan + LeakSanitizer at child exit. "
+    "Non-trivial = a solve interrupted after >= 1 evaluation and before an exact solution, followed by a resume, a clear or a query switch.")
